@@ -46,6 +46,7 @@ def gen(rng, tier):
     spec["points"] = [[rng.randint(0, 12), rng.choice(["init", "updated", "allocated", "performed", "recorded"])] for _ in range(3)]
     spec["limit"] = rng.randint(0, 6)
     spec["base_exc"] = rng.random() < 0.6
+    spec["warn_error"] = rng.random() < 0.4
     return spec
 
 
@@ -59,7 +60,7 @@ def extra_candidates(spec):
         c = dict(spec)
         c["points"] = pts[:i] + pts[i + 1:]
         yield c
-    for k in ("due", "reverse"):
+    for k in ("due", "reverse", "warn_error"):
         if spec.get(k):
             c = dict(spec)
             c[k] = False
@@ -118,7 +119,7 @@ def compare_structure(res, before, p, what, tag):
                 res.add("structure", "C17.dangling_helper_reference.%s" % tag, "%s: task %s still references helper task %r" % (what, t.ID, getattr(a, "name", a)), None)
 
 
-def one_backward(spec, inject=None, limit=None):
+def one_backward(spec, inject=None, limit=None, warn_error=False):
     scen.setup_run(spec.get("seed", 0))
     b = B.build(spec["model"], spec.get("ranks"))
     p = b.project
@@ -127,8 +128,12 @@ def one_backward(spec, inject=None, limit=None):
     cfg = dict(spec["cfg"])
     if limit is not None:
         cfg["max_time"] = limit
-    rec, out = scen.simulate(p, cfg, inject=inject, want_snap=False,
-                             backward={"due": spec.get("due", False), "reverse": spec.get("reverse", True)})
+    D.WARNINGS_AS_ERRORS[0] = bool(warn_error)
+    try:
+        rec, out = scen.simulate(p, cfg, inject=inject, want_snap=False,
+                                 backward={"due": spec.get("due", False), "reverse": spec.get("reverse", True)})
+    finally:
+        D.WARNINGS_AS_ERRORS[0] = False
     return p, before, rec, out
 
 
@@ -212,6 +217,14 @@ def run(spec):
         res.count("time_limit_run")
         what = "backward_simulate(max_time=%d) that %s" % (lim, "returned with status %d" % int(p.status) if out.ok else "raised %s" % out.exc_type)
         check_after(res, spec, p, before, what, "time_limit", dtwin)
+        if spec.get("warn_error"):
+            # the same run in a process where warnings are errors (python -W error): the library's "Time Over" warning is then
+            # an exception raised inside the inner run - one more way of being aborted at some step
+            p, before, rec, out = one_backward(spec, limit=lim, warn_error=True)
+            executed += 1
+            res.count("time_limit_run_with_warnings_as_errors")
+            what = "backward_simulate(max_time=%d) with warnings turned into errors, which %s" % (lim, "returned" if out.ok else "raised %s" % out.exc_type)
+            check_after(res, spec, p, before, what, "time_limit_warning_as_error", dtwin)
     # 3. injected exceptions
     if only in (None, "inject"):
         if spec.get("all_points"):
